@@ -22,7 +22,7 @@ O(op, n, k, m) == [op |-> op, name |-> n, kind |-> k, mode |-> m]
 Ops ==
        {O("setattr", n, k, "") : n \in Names, k \in Kinds}
   \cup {O("add", n, k, m) : n \in Names, k \in Kinds, m \in {"kw", "named"}}
-  \cup {O("setattr", AnyRes, AnyKind, ""), O("add", AnyRes, AnyKind, "kw"), O("setattr", AnyName, "nonhdl", ""),
+  \cup {O("setattr", r, AnyKind, "") : r \in Reserved} \cup {O("add", AnyRes, AnyKind, "kw"), O("setattr", AnyName, "nonhdl", ""),
         O("add", AnyName, "nonhdl", "kw"), O("add", AnyName, AnyKind, "both"), O("add", AnyName, AnyKind, "none"),
         O("setattr", "_p", AnyKind, ""), O("setattr", "_p", "nonhdl", ""),
         O("del", AnyName, "", ""), O("subclass", "", "", "")}
